@@ -70,9 +70,11 @@ type kdcSim struct {
 	next     map[string]string // referral routing: from realm -> toward target: next hop
 	clientPw string
 	cliEt    int32
-	down     int32 // != 0: the KDCs accept connections and close them without an answer (an outage)
-	slowNs   int64 // > 0: every answer is delayed by this long (real time; not used under a fake clock)
-	arrived  int64 // requests that have reached the simulator (counted before any delay)
+	down     int32                // != 0: the KDCs accept connections and close them without an answer (an outage)
+	slowNs   int64                // > 0: every answer is delayed by this long (real time; not used under a fake clock)
+	arrived  int64                // requests that have reached the simulator (counted before any delay)
+	slowTGS  int32                // != 0: only TGS requests are delayed
+	encPA    types.PADataSequence // the encrypted-pa-data of the AS reply being built (under mu)
 }
 
 var simRealms = []string{"TEST.GOKRB5", "OTHER.REALM", "THIRD.REALM"}
@@ -161,8 +163,14 @@ func (s *kdcSim) reply(tgs bool, t *simTicket, cname types.PrincipalName, nonce 
 	if !t.renewTill.IsZero() {
 		types.SetFlag(&fl, flags.Renewable)
 	}
+	if !tgs && s.encPA != nil {
+		types.SetFlag(&fl, flags.EncPARep)
+	}
 	enc := messages.EncKDCRepPart{Key: t.key, LastReqs: []messages.LastReq{{LRType: 0, LRValue: t.auth}}, Nonce: nonce, Flags: fl,
 		AuthTime: t.auth, StartTime: t.start, EndTime: t.end, RenewTill: t.renewTill, SRealm: t.issuer, SName: types.PrincipalName{NameType: 2, NameString: t.sname}}
+	if !tgs && s.encPA != nil {
+		enc.EncPAData = s.encPA
+	}
 	eb, _ := enc.Marshal()
 	usage := uint32(3)
 	if tgs {
@@ -196,7 +204,7 @@ func (s *kdcSim) handle(realm string, req []byte) []byte {
 		return nil
 	}
 	atomic.AddInt64(&s.arrived, 1)
-	if d := atomic.LoadInt64(&s.slowNs); d > 0 {
+	if d := atomic.LoadInt64(&s.slowNs); d > 0 && (atomic.LoadInt32(&s.slowTGS) == 0 || (len(req) > 0 && req[0] == 0x6c)) {
 		time.Sleep(time.Duration(d))
 	}
 	s.mu.Lock()
@@ -278,6 +286,19 @@ func (s *kdcSim) handleAS(realm string, a messages.ASReq, raw []byte) []byte {
 	t := s.issue(realm, a.ReqBody.SName.NameString, cname.NameString, realm, nowS.Add(-s.pol.backdate), nowS, a.ReqBody.Till, a.ReqBody.RTime, wantRenew, time.Time{})
 	r.outcome = fmt.Sprintf("issued %d", t.id)
 	r.issued = t.id
+	// RFC 6806 section 11: a request that carries PA-REQ-ENC-PA-REP is answered with the enc-pa-rep flag and, in the
+	// sealed part, a checksum of the request as it arrived (reply key, key usage 56) and an empty PA-FX-FAST
+	s.encPA = nil
+	if a.PAData.Contains(149) {
+		if et, err := crypto.GetEtype(key.KeyType); err == nil {
+			if ck, err := et.GetChecksumHash(key.KeyValue, raw, 56); err == nil {
+				if pv, err := asn1.Marshal(types.PAReqEncPARep{ChksumType: et.GetHashID(), Chksum: ck}); err == nil {
+					s.encPA = types.PADataSequence{{PADataType: 149, PADataValue: pv}, {PADataType: 136, PADataValue: []byte{}}}
+				}
+			}
+		}
+	}
+	defer func() { s.encPA = nil }()
 	return s.reply(false, t, cname, a.ReqBody.Nonce, key, hints)
 }
 
